@@ -287,7 +287,10 @@ class Result:
         ev = {"property_id": self.pid, "tier": self.tier, "seed": self.seed, "level": level,
               "coverage": cov, "assumptions": self.assumptions, "wall_s": round(time.time() - self.t0, 2),
               "violations": len(real)}
-        with open(os.path.join(EVID, self.pid + ".json"), "w") as f:
+        # evidence/<id>.json exists for the listed properties only; stand-alone component runs go to out/
+        evdir = EVID if re.match(r"C\d\d$", self.pid) else os.path.join(OUT, "component_evidence")
+        os.makedirs(evdir, exist_ok=True)
+        with open(os.path.join(evdir, self.pid + ".json"), "w") as f:
             json.dump(ev, f, indent=1)
         seen = set()
         for k, x in self.known_hits:
